@@ -537,9 +537,28 @@ def evaluate(run, inp, n_corpus=0, label="main"):
     rc, o = run.exec_inputs(inp, casesp)
     t_exec = time.time() - t
     if rc != 0:
-        # the implementation side died: that is either a crash found or a harness failure
-        run.violation("driver", {"what": "driver exec exited %d" % rc, "stderr": o[-4000:],
-                                 "note": "the driver process died while running the implementation"}, False)
+        # the implementation side died (a panic in a goroutine of the code under test, a fatal
+        # runtime error, a deadlock detected by the runtime): the culprit is the first input without
+        # an output line; re-run it alone to confirm
+        done = sum(1 for _ in open(casesp)) if os.path.exists(casesp) else 0
+        inputs = [l.rstrip("\n") for l in open(inp)]
+        culprit = inputs[done] if done < len(inputs) else None
+        confirmed = False
+        if culprit:
+            one = os.path.join(run.dir, label + ".crash.in.txt")
+            with open(one, "w") as f:
+                f.write(culprit + "\n")
+            for _ in range(8):   # crashes that depend on goroutine scheduling may need several attempts
+                rc1, o1 = run.exec_inputs(one, os.path.join(run.dir, label + ".crash.out.txt"))
+                if rc1 != 0:
+                    confirmed = True
+                    o = o1
+                    break
+        run.violation("crash" if confirmed else "driver",
+                      {"what": "the process running the implementation died (exit %d)%s" % (rc, " on this input, reproduced in isolation" if confirmed else ""),
+                       "case": culprit, "pretty": pretty_case(culprit) if culprit else None, "stderr": o[-4000:],
+                       "note": "the property requires that no input/schedule crashes the process" if confirmed else
+                               "not reproduced in isolation: first input without an output line is reported"}, confirmed)
         return None
     t = time.time()
     rc, o = run.model_eval(casesp, modelp)
